@@ -16,6 +16,13 @@ Definition check (c : case) : verdict :=
       let spec_ok := negb (cpanic c) && (length (cxs c) =? length (cys c))%nat &&
                      forallb (fun k => qeqb (qnth k (cys c)) (qnth (k - cn c) (cxs c))) (seq 0 (length (cxs c))) in
       mkv out_ok spec_ok ((cn c <? length (cxs c))%nat && negb (qeqb (qnth 0 (cxs c)) 0))
+  | 4%nat =>
+      (* Convolve::<i64,N>::normalized: coefficient / sum in truncating integer arithmetic (ccfg = what config_ref reports) *)
+      let s := qsum (ccoeffs c) in
+      let coeffs := if qeqb s 0 then ccoeffs c else map (fun x => inject_Z (Z.quot (Qnum (Qred x)) (Qnum (Qred s)))) (ccoeffs c) in
+      let '(ys, p) := run_model (conv_step (length coeffs) coeffs) [] (cxs c) in
+      let ok := Bool.eqb p (cpanic c) && qlist_eqb ys (cys c) && qlist_eqb coeffs (ccfg c) in
+      mkv ok (negb (cpanic c) && qlist_eqb coeffs (ccfg c) && forallb (fun n => qeqb (qnth n (cys c)) (fir coeffs (cxs c) n)) (seq 0 (length (cxs c)))) true
   | k =>
       let coeffs := match k with 0%nat => ccoeffs c | _ => normalized (ccoeffs c) end in
       let '(ys, p) := run_model (conv_step (length coeffs) coeffs) [] (cxs c) in
